@@ -34,6 +34,64 @@ def gen_text(rng, rep, maxlen=24):
     return [c for c in out if not (0xD800 <= c <= 0xDFFF)]
 
 
+_seeds = {}
+CORPORA = {'Padauk.ttf': 'my_HeadwordSyllables.txt', 'charis_r_gr.ttf': 'udhr_eng.txt', 'Charis5_eursub.ttf': 'udhr_yor.txt', 'charis_fast.ttf': 'udhr_eng.txt',
+           'Annapurnarc2.ttf': 'udhr_nep.txt', 'Scheherazadegr.ttf': 'udhr_arb.txt', 'Scheherazadegr_noglyfs.ttf': 'udhr_arb.txt',
+           'AwamiNastaliq-Regular.ttf': 'awami_tests.txt', 'Awami_test.ttf': 'awami_tests.txt', 'Awami_compressed_test.ttf': 'awami_tests.txt'}
+
+
+def seeds(repo, font):
+    """the strings the repository itself shapes with this font: fonttest lines of tests/CMakeLists.txt and the lines of its comparison corpus"""
+    if font not in _seeds:
+        import re
+        out, alpha = [], set()
+        try:
+            for m in re.finditer(r'fonttest\(\w+\s+(\S+)\s+([0-9A-Fa-f ]+?)(?:\s+-|\))', open(os.path.join(repo, 'tests/CMakeLists.txt')).read()):
+                if m.group(1) == font:
+                    out.append([int(x, 16) for x in m.group(2).split()])
+        except OSError:
+            pass
+        c = CORPORA.get(font)
+        lines = []
+        if c:
+            try:
+                for l in open(os.path.join(repo, 'tests/texts', c), encoding='utf-8', errors='ignore'):
+                    l = l.strip()
+                    if l:
+                        lines.append([ord(ch) for ch in l])
+            except OSError:
+                pass
+        for t in out + lines[:400]:
+            alpha.update(t)
+        _seeds[font] = (out, lines, sorted(alpha) or [0x41])
+    return _seeds[font]
+
+
+def gen_text_seeded(rng, repo, font, maxlen=16):
+    """a text near the ones the repository tests: a fonttest string or a window of a corpus line, with up to three edits
+    (drop, duplicate, swap, replace / insert / append from the same alphabet)"""
+    tests, lines, alpha = seeds(repo, font)
+    r = rng.random()
+    if tests and (r < 0.5 or not lines):
+        t = list(rng.choice(tests))
+    elif lines:
+        l = rng.choice(lines)
+        n = rng.randrange(1, maxlen + 1)
+        st = rng.randrange(0, max(1, len(l) - n + 1))
+        t = l[st:st + n]
+    else:
+        return gen_text(rng, repertoire(repo, font), maxlen)
+    for _ in range(rng.choice((0, 1, 1, 2, 2, 3))):
+        k = rng.randrange(7)
+        if k == 0 and t: del t[rng.choice((0, 0, len(t) - 1, rng.randrange(len(t))))]
+        elif k == 1 and t: i = rng.randrange(len(t)); t.insert(i, t[i])
+        elif k == 2 and len(t) > 1: i = rng.randrange(len(t) - 1); t[i], t[i + 1] = t[i + 1], t[i]
+        elif k == 3 and t: t[rng.randrange(len(t))] = rng.choice(alpha)
+        elif k == 4: t.insert(rng.randrange(len(t) + 1), rng.choice(alpha))
+        else: t.append(rng.choice(alpha))
+    return [c for c in t if c and not (0xD800 <= c <= 0xDFFF)][:maxlen + 8]
+
+
 def encode(cps, enc):
     u = []
     for c in cps:
